@@ -265,7 +265,7 @@ func c12AnyStrings(v []any) []string {
 
 func c12RegKeys() {
 	anyKey := func(g *c12G) string { return g.from("anykey", c12AllKeys...) }
-	c12Reg("Del", &c12Entry{typ: "key", weight: 3,
+	c12Reg("Del", &c12Entry{typ: "key", mtype: "*", weight: 3,
 		gen: func(g *c12G) c12Step {
 			n := int(g.small(1, 3))
 			s := c12Step{}
@@ -284,7 +284,7 @@ func c12RegKeys() {
 			v, err := c.Del(ctx, s.K...).Result()
 			return int(v), err
 		}})
-	c12Reg("Exists", &c12Entry{typ: "key",
+	c12Reg("Exists", &c12Entry{typ: "key", mtype: "*",
 		gen: func(g *c12G) c12Step { return c12Step{K: []string{anyKey(g)}} },
 		wrap: func(e *c12Env, ctx context.Context, s c12Step) (any, error) {
 			if s.X {
@@ -296,7 +296,7 @@ func c12RegKeys() {
 			v, err := c.Exists(ctx, s.K[0]).Result()
 			return v == 1, err
 		}})
-	c12Reg("Expire", &c12Entry{typ: "key", weight: 4,
+	c12Reg("Expire", &c12Entry{typ: "key", mtype: "*", weight: 4,
 		gen: func(g *c12G) c12Step { return c12Step{K: []string{anyKey(g)}, I: []int64{g.secs()}} },
 		wrap: func(e *c12Env, ctx context.Context, s c12Step) (any, error) {
 			if s.X {
@@ -307,7 +307,7 @@ func c12RegKeys() {
 		ref: func(c red.Cmdable, ctx context.Context, s c12Step) (any, error) {
 			return nil, c.Expire(ctx, s.K[0], time.Duration(s.I[0])*time.Second).Err()
 		}})
-	c12Reg("ExpireAt", &c12Entry{typ: "key", weight: 3,
+	c12Reg("ExpireAt", &c12Entry{typ: "key", mtype: "*", weight: 3,
 		gen: func(g *c12G) c12Step {
 			// absolute unix seconds relative to the case clock (T0 + generated advances)
 			delta := rapid12Delta(g)
@@ -323,7 +323,7 @@ func c12RegKeys() {
 		ref: func(c red.Cmdable, ctx context.Context, s c12Step) (any, error) {
 			return nil, c.ExpireAt(ctx, s.K[0], time.Unix(s.I[0], 0)).Err()
 		}})
-	c12Reg("Persist", &c12Entry{typ: "key",
+	c12Reg("Persist", &c12Entry{typ: "key", mtype: "*",
 		gen: func(g *c12G) c12Step { return c12Step{K: []string{anyKey(g)}} },
 		wrap: func(e *c12Env, ctx context.Context, s c12Step) (any, error) {
 			if s.X {
@@ -334,7 +334,7 @@ func c12RegKeys() {
 		ref: func(c red.Cmdable, ctx context.Context, s c12Step) (any, error) {
 			return c.Persist(ctx, s.K[0]).Result()
 		}})
-	c12Reg("TTL", &c12Entry{typ: "key", weight: 3,
+	c12Reg("TTL", &c12Entry{typ: "key", mtype: "*", weight: 3,
 		gen: func(g *c12G) c12Step { return c12Step{K: []string{anyKey(g)}} },
 		wrap: func(e *c12Env, ctx context.Context, s c12Step) (any, error) {
 			if s.X {
